@@ -143,8 +143,10 @@ def decode_chunk_into(chunk, buf, block_size):
         if offset + 8 * gx * gy * gz > len(buf):
             raise InvalidFormatError("compressed_segmentation channel offset "
                                      "is too large (truncated file?)")
+        # The format does not require channels to be stored in order, so the
+        # data of a channel cannot be assumed to end at next_offset.
         _decode_channel_into(
-            chunk, channel, buf[offset:next_offset], block_size
+            chunk, channel, buf[offset:], block_size
         )
 
     return chunk
